@@ -271,6 +271,6 @@ End Lexer.
    use (Rust's Unicode tables are not modelled) *)
 Definition test_uclass (c : N) : uclass :=
   if (c =? 160) || (c =? 0x3000) || (c =? 0x2003) || (c =? 0x2028) || (c =? 0x85) then UWhite
-  else if (c =? 233) || (c =? 201) || (c =? 252) || (c =? 0x3b1) || (c =? 0x4e2d) then UAlpha     (* e-acute E-acute u-umlaut alpha zhong *)
+  else if (c =? 233) || (c =? 201) || (c =? 252) || (c =? 220) || (c =? 0x3b1) || (c =? 0x391) || (c =? 0x4e2d) then UAlpha     (* e-acute E-acute u-umlaut U-umlaut alpha Alpha zhong *)
   else if (c =? 0xb2) || (c =? 0x661) then UNumeric                                                (* superscript two, arabic-indic one *)
   else UOther.
